@@ -65,6 +65,21 @@ REWRITES = {
 }
 
 
+# std's slice sort cannot be explored under lengths CBMC does not constant-propagate (pdqsort/smallsort/heapsort
+# recursion: >400 s for a 1-element Vec). Each `X.sort_unstable_by_key(F);` statement gets a cfg(kani) twin that calls
+# an insertion-sort model with the same contract (kani/sort_stub.rs); the original statement stays under cfg(not(kani)).
+SORT_FILES = ["src/storage/allocation_journal.rs", "src/storage/io.rs", "src/storage/write_buffer.rs"]
+SORT_RE = r"^([ \t]*)(\w+)\.sort_unstable_by_key\((.*)\);[ \t]*$"
+
+
+def _sort_rewrite(text):
+    def repl(m):
+        ind, var, arg = m.group(1), m.group(2), m.group(3)
+        return ("%s#[cfg(kani)]\n%scrate::verif_sort::SortModel::sort_unstable_by_key_model(&mut %s[..], %s);\n"
+                "%s#[cfg(not(kani))]\n%s%s.sort_unstable_by_key(%s);" % (ind, ind, var, arg, ind, ind, var, arg))
+    return re.subn(SORT_RE, repl, text, flags=re.M)
+
+
 def instrument(src_root, only=None):
     """Append `#[cfg(kani)] mod verif_kani` lines; additive and cfg(kani)-guarded."""
     done = []
@@ -83,10 +98,15 @@ def instrument(src_root, only=None):
             if n != 1:
                 raise CannotInstrument("rewrite %r matched %d times in %s" % (pat, n, rel))
             text = new
+        if rel in SORT_FILES:
+            text, _n = _sort_rewrite(text)
         text += '\n#[cfg(kani)] #[path = "%s"] pub(crate) mod verif_kani;\n' % hpath
         with open(p, "w") as f:
             f.write(text)
         done.append(rel)
+    lib = os.path.join(src_root, "src/lib.rs")
+    with open(lib, "a") as f:
+        f.write('\n#[cfg(kani)] #[path = "%s/sort_stub.rs"] pub(crate) mod verif_sort;\n' % KANI_DIR)
     return done
 
 
